@@ -579,6 +579,9 @@ func c19Fixed(c *ev.Ctx) {
 		`return -{"a": [1]};`,
 		`h = {1: "int", "1": "str", 1.0: "flt", 2: "x"}; return sprintf("%v|%s|%d|%q", h, h, h, h) + sprintf("%v", [h, {"a": h}]) + sprintf("%v %v", keys(h), {2.5: 1, "2.5": 2});`,
 		`h = {"b": 1, "a": 2, "c": {"z": 1, "y": 2}}; printf("%v %s\n", h, [h]); print(h, [h], {"k": h}); return sprintf("%v", h) + string(h) + sprintf("%s", keys(h));`,
+		`function pick() { return "first"; } function pick() { return "second"; } return pick();`,
+		`function g(a) { t("one"); return 1; } x = g(1); function g(a) { t("two"); return 2; } function g(a) { t("three"); return 3; } function h() { return g(0); } return [x, g(2), h()];`,
+		`if (C) { function q() { return "then"; } } else { function q() { return "else"; } } switch (1) { case 1, 2 { function q() { return "case"; } } } return q();`,
 		`function total() { return 1; } function Total() { return 2; } function TOTAL() { return 3; } function toTal() { return 4; } return totaL();`,
 		`function a1() { return 1; } function a2() { return 2; } function a3() { return 3; } function a4() { return 4; } function a5() { return 5; } return a6(a1(), a2());`,
 		`function f(a) { return a; } function g(a, b) { return b; } function h() { return 0; } return [f(), g(1), h(2)];`,
